@@ -103,6 +103,26 @@ def check(V, prop, tier, seed):
                 trusted.update(axs)
 
     lap('make+assumptions')
+    # (b') thorough tier: re-check the compiled property files with the independent checker
+    coqchk_report = None
+    if tier == 'thorough' and not proof_problems:
+        mods = sorted(set('G3.Properties.' + m for m, _ in thm_pairs))
+        try:
+            rc, out = V.sh(['coqchk', '-o', '-silent', '-Q', V.COQ, 'G3'] + mods, timeout=3000)
+        except Exception as e:
+            rc, out = 1, 'coqchk did not finish: %r' % e
+        axioms = []
+        sec = None
+        for line in out.splitlines():
+            if line.startswith('* '): sec = line
+            elif sec and sec.startswith('* Axioms') and line.startswith('    '): axioms.append(line.strip())
+        bad = [a for a in axioms if not V.axiom_ok(a.replace('Coq.', '', 1)) and not V.axiom_ok(a)]
+        flags = [l for l in out.splitlines() if l.startswith('* ') and 'relying on' in l or l.startswith('* Inductives whose')]
+        unsafe = [l for l in flags if not l.rstrip().endswith('<none>')]
+        coqchk_report = dict(rc=rc, modules=mods, n_axioms=len(axioms), non_allowlisted=bad, unsafe_flags=unsafe)
+        if rc != 0: proof_problems.append('coqchk failed: ' + out[-600:])
+        if bad: proof_problems.append('coqchk: non-allowlisted axioms %s' % bad[:5])
+        if unsafe: proof_problems.append('coqchk: %s' % unsafe)
     # (c) harness + correspondence
     streams = cfg.streams(tier)
     results = []
@@ -213,7 +233,7 @@ def check(V, prop, tier, seed):
             path_tag_histogram=hist_all, input_distribution=dist,
             streams=[dict(name=r['stream'].name, n=len(r['cases']), release=r['stream'].release, f32=r['stream'].f32, mismatches=len(r['bad'])) for r in results],
             oracle_failures=len(oracle_failures), known_findings_matched=known_lines, search_inputs_after_break=searched,
-            broken_obligations=[str(p)[:300] for p in proof_problems], phase_seconds=T,
+            broken_obligations=[str(p)[:300] for p in proof_problems], phase_seconds=T, coqchk=coqchk_report,
         ),
         assumptions=cfg.ASSUMPTIONS,
         wall_s=round(time.time() - t0, 2), violations=len(new_failures) + (1 if (broken and not new_failures) else 0))
